@@ -685,7 +685,8 @@ func (sc *specCtx) call(e *ast.CallExpr) Value {
 		}
 		out := Value{T: mt.Elem(), C: make([]*Term, len(comps))}
 		for j, c := range comps {
-			out.C[j] = Select(Select(sc.st.region(vals[j], SArr(SArr(c.Sort))), m.C[0]), k)
+			// Go's lookup: the zero value when absent
+			out.C[j] = Ite(Select(Select(sc.st.region(hasR, SArr(SArr(SBool))), m.C[0]), k), Select(Select(sc.st.region(vals[j], SArr(SArr(c.Sort))), m.C[0]), k), zeroOf(c.Sort))
 		}
 		return out
 	case "boxed":
